@@ -744,6 +744,41 @@ def given_statistics_phase(ctx, tmpdir):
                           tags=dict(clause="given_statistics", source=name))
 
 
+def constant_coefficient_phase(ctx, tmpdir):
+    """statistics in which one coefficient had the SAME value in every vector (count*sumsq == sum**2 up to rounding: zero
+    variance), written by save() in each format and loaded again: the loaded transform is the one of the saved object"""
+    p = post()
+    for const in (0.3, 0.1, 1e-3, float(np.log(1e-10)), -7.0):
+        for nvec, as_tensor in ((7, True), (50, False)):
+            rs = np.random.RandomState(1613)
+            data = rs.normal(size=(nvec, 4))
+            data[:, 2] = const
+            ref = p.Standardize(norm_var=False)
+            if as_tensor:
+                ref.accumulate(data)
+            else:
+                for v in data:
+                    ref.accumulate(v)
+            x = data[:3].copy()
+            want = ref.apply(x.copy())
+            for ext, kw_save, kw_load in ((".npy", {}, {}), ("", {}, dict(force_as="file")), (".npz", dict(key="k"), dict(key="k"))):
+                path = os.path.join(tmpdir, "const%s" % ext)
+                if os.path.exists(path):
+                    os.remove(path)
+                case = dict(kind="constant_coefficient", value=const, vectors=nvec, as_tensor=as_tensor, format=ext or "raw")
+                ctx.case(case, kind="constant_coeff:" + (ext or "raw"))
+                try:
+                    ref.save(path, **kw_save)
+                    got = p.Standardize(path, False, **kw_load).apply(x.copy())
+                except Exception as e:
+                    ctx.violation(case, "the saved transform", "%s: %s" % (type(e).__name__, str(e)[:150]),
+                                  "statistics saved by the library load again", tags=dict(clause="given_statistics", how="raises", source=ext or "raw"))
+                    continue
+                if got.shape != want.shape or not np.allclose(got, want, rtol=1e-12, atol=1e-12):
+                    ctx.violation(case, want[0].tolist(), got[0].tolist() if got.shape == want.shape else list(got.shape),
+                                  "apply with loaded statistics == apply of the object that saved them", tags=dict(clause="given_statistics", source=ext or "raw"))
+
+
 def big_call_phase(ctx):
     """'any split of the data into accumulate calls gives the same transform', at sizes where an implementation might work
     in blocks: thousands of vectors in ONE call against the same data in two calls, many single vectors, a rank-3 tensor
@@ -794,6 +829,7 @@ def run(ctx, driver):
             warnings.simplefilter("ignore")
             given_statistics_phase(ctx, tmpdir)
             big_call_phase(ctx)
+            constant_coefficient_phase(ctx, tmpdir)
             for case in corpus():
                 eval_case(ctx, case, tmpdir, lines, pending)
             for i in range(n):
